@@ -15,6 +15,11 @@ the model (and the lemmas about it stop checking) instead of being silently igno
 namespace PV.Hash
 open PV.Generated
 
+/-- the `PCryptoHashType` values of the Merkle–Damgård group -/
+inductive HashType where
+  | md5 | sha1 | sha224 | sha256 | sha384 | sha512
+deriving DecidableEq, Repr
+
 /-! ## input of one `update` call -/
 
 /-- The memory behind `data`: `bytes` followed by `zeros` zero bytes (the harness's `updz N` maps
